@@ -104,6 +104,35 @@ def emitGraph (o : Out) (fam : String) (g : GSpec) (checkSpec : Bool := true) : 
     o.line (tab ["K", "C05", fam, "|".intercalate (texts.map hexOfString), "acyclic graph, but the number of steps is not the number of edges"])
   o.line (compileCase fam "c05:cycles" "-" texts (cyclesS gm reports (e019s p) cyc))
 
+/-- the same graph with EVERY node called `T`, node `i` in its own module `M<i>` (one file each) and every reference written
+    `M<j>::T`: the types differ only in their module -/
+partial def trefOfTyModules (g : GSpec) : CTy → TRef
+  | .node j => .mk [] (.named ("M" ++ toString j ++ "::T")) false
+  | .terminal => .mk [] (.prim .int32) false
+  | .opt t => match trefOfTyModules g t with | .mk a ty _ => .mk a ty true
+  | .seq t => .mk [] (.seq (trefOfTyModules g t)) false
+  | .dict k v => .mk [] (.dict (trefOfTyModules g k) (trefOfTyModules g v)) false
+  | .result s f => .mk [] (.result (trefOfTyModules g s) (trefOfTyModules g f)) false
+
+def programOfGraphModules (g : GSpec) : Program :=
+  g.zipIdx.map fun (nd, i) =>
+    let fs := nd.fields.zipIdx.map fun (t, k) => mkField ("f" ++ toString k) (trefOfTyModules g t)
+    let d : Def :=
+      if nd.isEnum then
+        .enum [] [] false false "T" none
+          ((fs.zipIdx.map fun (f, k) => { doc := [], attrs := [], name := "X" ++ toString k, fields := some [f], value := none : Enumerator }) ++
+           [{ doc := [], attrs := [], name := "Z", fields := none, value := none : Enumerator }])
+      else .struct [] [] false "T" fs
+    ({ fileAttrs := [], module := some ⟨[], "M" ++ toString i⟩, defs := [d] } : SFile)
+
+def emitGraphModules (o : Out) (fam : String) (g : GSpec) : IO Unit := do
+  let p := programOfGraphModules g
+  let gm := graphOfProgram p
+  let st := detectE (edges gm) gm.length
+  if st.exhausted then
+    o.line (tab ["K", "C05", fam, "|".intercalate ((textOf p).map hexOfString), "the detector model ran out of fuel"])
+  o.line (compileCase fam "c05:cycles" "-" (textOf p) (cyclesS gm st.reports (e019s p) (onCycle (edges gm) gm.length)))
+
 /-- a containment case whose expectation is only the verdict (`accepted` / `rejected`): the detector model is NOT run
     (on the complete digraph it enumerates every simple cycle, like the code); the verdict is `rejected` exactly when some
     type contains itself (`Props/C05.exact_acyclic`) -/
@@ -468,6 +497,10 @@ def gen (tier : Tier) (seed : Nat) (o : Out) : IO Unit := do
     for mask in [0:2 ^ (n * n)] do
       for w in [0:8] do
         emitGraph o ("exh-" ++ toString n) (graphOfMask n mask w (mask + w + mask / 8))
+  -- the graphs on 2 and 3 nodes once more with all types called `T`, each in its own module (types that differ only in their module)
+  for n in [2:4] do
+    for mask in [0:2 ^ (n * n)] do
+      emitGraphModules o ("same-name-" ++ toString n) (graphOfMask n mask (mask % 8) (mask + mask / 8))
   if thorough then
     -- every graph on 4 nodes, one wrapper form and one kind assignment each (rotating)
     for mask in [0:2 ^ 16] do
